@@ -33,6 +33,11 @@ def main():
     try:
         run = open(d + "/RUN.txt").read()
         seedroot = "/tmp/seed-%s" % prop
+        m0 = re.search(r"(/tmp/seed\d*-%s)\b" % prop, run)
+        if m0:
+            seedroot = m0.group(1)
+        elif d.startswith("/tmp/seed"):
+            seedroot = os.path.dirname(os.path.dirname(d))
         # destination of the demo file: a full path under the seed worktree named in RUN.txt
         gofiles = [f for f in os.listdir(d) if f.endswith(".go")]
         m = re.search(r"(%s/(?!out/)[A-Za-z0-9_./-]+\.go)" % re.escape(seedroot), run)
